@@ -78,6 +78,10 @@ impl<'a> Gen<'a> {
         if depth >= self.max_depth {
             return 0;
         }
+        if depth == 0 && rng.chance(1, 40) {
+            // lengths whose zig-zag count needs two bytes, and the length of the long arrays
+            return *rng.pick(&[63usize, 64, 65, 70]);
+        }
         let cap = (self.size / (depth + 1)).clamp(1, 8);
         match rng.below(6) {
             0 => 0,
